@@ -188,7 +188,7 @@ func main() {
 	res := lib.NewResult("C15", f)
 	rn := &runner{f: f}
 	rn.small = res.Tie("paging-small-exhaustive", "K2",
-		"every collection over the id pool {a,ab,b} (waste: 0..3 records), built through the creation API and as initial records, x page size {-2,-1,0,1,2,3} x starting token {empty, last key in {'',a,aa,ab,b,c}, undecodable text, undecodable bytes} (waste: {empty,0..4,-1,text,overflow}) on each of the seven RPCs, with and without a read mask hiding the key, chain followed to its end; plus every sequence of <= 2 store operations over the full alphabet (ids a, b, empty; generated ids; parent AddChild/AddChildTrait; Update* with create-if-absent, with update masks naming / leaving out the key field / without any path; publication updates with the id in the message, without it, and with a FOREIGN id; deletes with and without allow-missing; the trait servers' own Create/Update/Delete/AcknowledgePublication/Dispense RPCs) on a collection {a}, then two passes of one-item pages (default-size pages too for every single op and a quarter of the pairs); plus every non-empty collection over 5 long / odd ids (35, 35, 304, 40 bytes; control, base64 and URL characters) through every creation route (initial records, creation API, create-if-absent updates, AddChild/AddChildTrait), one- and two-item pages from the start and from a token; plus records configured through the RAW option resource.WithInitialRecord(storage id, message) whose key field is not the storage id ({zz->ab}, {0->c}; with a lower-casing interceptor {ZZ->Ab}, {0->C}) next to every collection within {a,b}, x page size {1,2,0} x 5 tokens, and every single store op over {a, zz} on top; plus models built with resource.WithIDInterceptor (ASCII lower / upper casing): every non-empty collection over {a, B, Ab} (storage-id order differs from spelling order) through the creation API and as (normalised) initial records x page size {1,2,0} x tokens for every spelling, and every sequence of <= 2 store ops over the spellings {a, B} on a collection {A}; plus a REFUSED write (Update* of an existing / absent id with and without create-if-absent, Delete*, waste AddWasteRecord) parked in its WithExpectedCheck callback during the unpaged listing and every List call of two passes; plus the same writes ACCEPTED (the callback parks, then returns nil): unpaged listing + one chain while the write is parked (judged against the contents BEFORE it), then the write completes and the listing + two passes are taken again (judged against the contents AFTER it); plus EVERY store op of the alphabet over {a, c} (update masks without paths included; the APIs without write options - parent AddChild/AddChildTrait/RemoveChildTrait, Create*, the servers' RPCs - too) parked at a yield point of the resource layer (gau.beforeLock / gau.afterRead / coll.delete.afterRead: after the verdict, before the write lock) on {a} and {a,b}, listed and paged while parked and again after it was let through; every construction step, op outcome, the listing (key fields in Collection.List order vs rlisting) and every List call compared with the Lean model; distinct = (rpc, |ids|, size, decoded token, key visible) / (rpc, op kind and options, outcome)")
+		"every collection over the id pool {a,ab,b} (waste: 0..3 records), built through the creation API and as initial records, x page size {-2,-1,0,1,2,3} x starting token {empty, last key in {'',a,aa,ab,b,c}, undecodable text, undecodable bytes} (waste: {empty,0..4,-1,text,overflow}) on each of the seven RPCs, with and without a read mask hiding the key, chain followed to its end; plus every sequence of <= 2 store operations over the full alphabet (ids a, b, empty; generated ids; parent AddChild/AddChildTrait; Update* with create-if-absent, with update masks naming / leaving out the key field / without any path; publication updates with the id in the message, without it, and with a FOREIGN id; deletes with and without allow-missing; the trait servers' own Create/Update/Delete/AcknowledgePublication/Dispense RPCs) on a collection {a}, then two passes of one-item pages (default-size pages too for every single op and a quarter of the pairs); plus every non-empty collection over 5 long / odd ids (35, 35, 304, 40 bytes; control, base64 and URL characters) through every creation route (initial records, creation API, create-if-absent updates, AddChild/AddChildTrait), one- and two-item pages from the start and from a token; plus records configured through the RAW option resource.WithInitialRecord(storage id, message) whose key field is not the storage id ({zz->ab}, {0->c}; with a lower-casing interceptor {ZZ->Ab}, {0->C}) next to every collection within {a,b}, x page size {1,2,0} x 5 tokens, and every single store op over {a, zz} on top; plus models built with resource.WithIDInterceptor (ASCII lower / upper casing): every non-empty collection over {a, B, Ab} (storage-id order differs from spelling order) through the creation API and as (normalised) initial records x page size {1,2,0} x tokens for every spelling, and every sequence of <= 2 store ops over the spellings {a, B} on a collection {A}; plus a REFUSED write (Update* of an existing / absent id with and without create-if-absent, Delete*, waste AddWasteRecord) parked in its WithExpectedCheck callback during the unpaged listing and every List call of two passes; plus the same writes ACCEPTED (the callback parks, then returns nil): unpaged listing + one chain while the write is parked (judged against the contents BEFORE it), then the write completes and the listing + two passes are taken again (judged against the contents AFTER it); plus EVERY store op of the alphabet over {a, c} (update masks without paths included; the APIs without write options - parent AddChild/AddChildTrait/RemoveChildTrait, Create*, the servers' RPCs - too) parked at a yield point of the resource layer (gau.beforeLock / gau.afterRead / coll.delete.afterRead: after the verdict, before the write lock) on {a} and {a,b}, listed and paged while parked and again after it was let through; plus, on the model whose write paths depend on what the stored records carry besides their key (vending inventory: quantities kept in litres / in litres and kilograms / in kilograms only), for every such payload: every single op and every pair of ops with a Dispense (in an unspecified unit, litres, kilograms: succeeds, fails at once, fails half-way - the write interceptor then makes the write a copy of the stored record and the RPC reports the error -, absent stock) before and after updates that keep / replace the payload, deletes and re-creations, on initial, raw and created records, and every Dispense parked at a yield point of the resource layer; every construction step, op outcome, the listing (key fields in Collection.List order vs rlisting) and every List call compared with the Lean model; distinct = (rpc, |ids|, size, decoded token, key visible) / (rpc, op kind and options, outcome)")
 	rn.small.Exhaustive = true
 	rn.tie = res.Tie("paging-scenarios", "K1",
 		"structured random paging scenarios from one PRNG: collection sizes 0-60/49,50,51/999-1001, page sizes {-5..0,1,2,3,7,50,1000,5000,random} fixed or varying per page, prefix-related and multi-byte ids, hostile tokens (bit flips, truncation, base64 of random bytes, tokens for deleted/absent keys, other oneof member, unknown fields, repeated field, other listers' tokens, URL/raw alphabets, embedded newlines, out-of-range indices), long ids (to ~600 bytes, shared long prefixes) and ids with control/base64/URL characters, each collection built through a random split of initial records and creation API, collections built by random histories of the models' creation/update/deletion APIs and the servers' CRUD RPCs (create-if-absent, update masks incl. non-nil masks without paths, foreign ids, allow-missing), 2-3 passes over one model, arbitrary warm-up List calls before the chain, half of these with a write in flight (refused throughout; or accepted / any store op parked at a yield point: one chain while it is parked, all passes after it completed); models with a case-mapping id interceptor and mixed-case ids (distinct under the interceptor), histories over re-spellings of them, tokens in other spellings; every op outcome, listing and List call compared with the Lean model; distinct = (rpc, |ids|, size, decoded token, key visible)")
@@ -224,6 +224,7 @@ func main() {
 	rn.smallInflight()
 	rn.smallHooked()
 	rn.smallRaw()
+	rn.smallPayload()
 	rn.flush()
 	rn.rng = rng
 	rn.random(rng)
@@ -335,7 +336,10 @@ func opAlphabet(rp rpc, ids []string, foreign []string) []storeOp {
 		case "publication.ListPublications":
 			ops = append(ops, storeOp{Kind: "add", ID: id, Via: "rpc"}, storeOp{Kind: "update", ID: id, Via: "ack"})
 		case "vending.ListInventory":
-			ops = append(ops, storeOp{Kind: "update", ID: id, Via: "dispense"})
+			// Dispense: an update through a write interceptor; what it does depends on the units the stock is kept in
+			for _, u := range dispenseUnits {
+				ops = append(ops, storeOp{Kind: "update", ID: id, Via: "dispense", Unit: u})
+			}
 		}
 	}
 	if hasRPC[rp.Name] {
@@ -345,6 +349,70 @@ func opAlphabet(rp rpc, ids []string, foreign []string) []storeOp {
 		upd("") // the empty id names no item, with or without create-if-absent
 	}
 	return ops
+}
+
+var dispenseUnits = []string{"", "l", "kg"}
+
+// payloads: the payload variants the records behind rp can carry (scenario.Payload); 0 = nothing but the key.
+func payloads(rp rpc) []int {
+	if rp.Name == "vending.ListInventory" {
+		return []int{0, 1, 2, 3}
+	}
+	return []int{0}
+}
+
+// genPayload draws a payload variant for a scenario on rp.
+func genPayload(r *rand.Rand, rp rpc) int {
+	if ps := payloads(rp); len(ps) > 1 {
+		return ps[r.Intn(len(ps))]
+	}
+	return 0
+}
+
+// payloadDependent: does what op writes depend on what the stored record carries (a write interceptor of the model)?
+func payloadDependent(op storeOp) bool { return op.Via == "dispense" }
+
+// smallPayload: on the models whose records carry a payload that write paths depend on, for every payload variant:
+// every single op of the alphabet over {a, b} and every pair of ops of which at least one depends on the payload
+// (Dispense in every unit class: succeeds, fails at once, fails half-way, names an absent stock; before and after
+// updates with and without mask - which keep / replace the payload -, deletes and re-creations), on {a} built as an
+// initial record and through the creation API and on {a, b}; then two passes of one-item pages (default size for
+// every single op and a quarter of the pairs).
+func (rn *runner) smallPayload() {
+	for _, rp := range rpcs() {
+		for _, pay := range payloads(rp)[1:] {
+			alpha := opAlphabet(rp, []string{"a", "b"}, []string{"c"})
+			var seqs [][]storeOp
+			for _, o1 := range alpha {
+				seqs = append(seqs, []storeOp{o1})
+			}
+			for _, o1 := range alpha {
+				for _, o2 := range alpha {
+					if payloadDependent(o1) || payloadDependent(o2) {
+						seqs = append(seqs, []storeOp{o1, o2})
+					}
+				}
+			}
+			for k, ops := range seqs {
+				ids, ninit := []string{"a"}, k%2
+				if k%3 == 2 {
+					ids, ninit = []string{"a", "b"}, 1
+				}
+				for _, s := range []int32{1, 0} {
+					if s == 0 && len(ops) == 2 && k%4 != 0 {
+						continue
+					}
+					rn.do(scenario{RPC: rp.Name, IDs: ids, NInit: ninit, Payload: pay, Ops: ops, Sizes: []int32{s}, Passes: 2, Class: "small-payload-ops"}, rn.small)
+				}
+			}
+			// raw initial records carry the payload too
+			for _, op := range alpha {
+				if payloadDependent(op) {
+					rn.do(scenario{RPC: rp.Name, IDs: []string{"b"}, Raw: []rawRec{{"a", "ab"}}, Payload: pay, Ops: []storeOp{op}, Sizes: []int32{1}, Passes: 2, Class: "small-payload-ops"}, rn.small)
+				}
+			}
+		}
+	}
 }
 
 // keyMasks: nil, or read masks that keep the key (op scenarios create items whose witness field is not their id).
@@ -487,6 +555,21 @@ func (rn *runner) smallIcpt() {
 		for _, ops := range seqs {
 			rn.do(scenario{RPC: rp.Name, IDs: []string{"A"}, Ops: ops, Sizes: []int32{1}, Passes: 2, Icpt: "lower", Class: "small-interceptor-ops"}, rn.small)
 		}
+		// an interceptor that maps the EMPTY id to a key of its own ("ns/"): creations without an id still get a
+		// generated one; every single op, and every pair that starts with a creation without an id
+		// (the key "ns/" itself is not used as an id: electric's active-mode guard looks the EMPTY active mode id up
+		// through the interceptor and then refuses to delete the mode stored under "ns/" - not a paging matter)
+		alphaNS := opAlphabet(rp, []string{"a", "b"}, []string{"c"})
+		for _, o1 := range alphaNS {
+			for _, ids := range [][]string{{"a"}, {"a", "b"}} {
+				rn.do(scenario{RPC: rp.Name, IDs: ids, NInit: len(ids) - 1, Ops: []storeOp{o1}, Sizes: []int32{1}, Passes: 2, Icpt: "ns", Class: "small-interceptor-empty-id"}, rn.small)
+			}
+			if o1.Kind == "add" && o1.ID == "" {
+				for _, o2 := range alphaNS {
+					rn.do(scenario{RPC: rp.Name, IDs: []string{"a"}, Ops: []storeOp{o1, o2}, Sizes: []int32{1}, Passes: 2, Icpt: "ns", Class: "small-interceptor-empty-id"}, rn.small)
+				}
+			}
+		}
 	}
 }
 
@@ -571,6 +654,13 @@ func (rn *runner) smallHooked() {
 				// a first page meanwhile (warm-up call), then chains that START from a token
 				rn.do(scenario{RPC: rp.Name, IDs: ids, Sizes: []int32{1}, Token: encodeKeyToken("a"), Warm: []warmCall{{Size: 0}}, Passes: 2,
 					Inflight: &guardedWrite{Kind: "hooked", Op: &op, Point: hookPoint(op, i%3 == 1)}, Class: "small-inflight-hooked"}, rn.small)
+				// writes whose effect depends on the stored payload: parked too, for every payload variant
+				if payloadDependent(op) {
+					for _, pay := range payloads(rp)[1:] {
+						rn.do(scenario{RPC: rp.Name, IDs: ids, NInit: pay % 2, Payload: pay, Sizes: []int32{1}, Passes: 2,
+							Inflight: &guardedWrite{Kind: "hooked", Op: &op, Point: hookPoint(op, (i+pay)%3 == 0)}, Class: "small-inflight-hooked-payload"}, rn.small)
+					}
+				}
 			}
 		}
 	}
@@ -769,7 +859,7 @@ func (rn *runner) random(r *rand.Rand) {
 		for j := 0; j < 1+r.Intn(12); j++ {
 			ops = append(ops, alpha[r.Intn(len(alpha))])
 		}
-		sc := scenario{RPC: rp.Name, IDs: base, Ops: ops, Sizes: []int32{genPageSize(r) % 6}, Mask: keyMask(r, rp), Class: "store-ops"}
+		sc := scenario{RPC: rp.Name, IDs: base, Ops: ops, Sizes: []int32{genPageSize(r) % 6}, Mask: keyMask(r, rp), Payload: genPayload(r, rp), NInit: pickInit(r, len(base)), Class: "store-ops"}
 		if r.Intn(3) == 0 {
 			sc.Passes = 2
 		}
@@ -784,7 +874,7 @@ func (rn *runner) random(r *rand.Rand) {
 		for j := 0; j < 1+r.Intn(3); j++ {
 			ss = append(ss, genPageSize(r)%12)
 		}
-		sc := scenario{RPC: rp.Name, IDs: ids, Sizes: ss, Mask: genMask(r, rp), Passes: 2 + r.Intn(2), Class: "passes"}
+		sc := scenario{RPC: rp.Name, IDs: ids, Sizes: ss, Mask: genMask(r, rp), Passes: 2 + r.Intn(2), Payload: genPayload(r, rp), Class: "passes"}
 		for j := 0; j < r.Intn(4); j++ {
 			w := warmCall{Size: genPageSize(r)%12 - int32(r.Intn(2)), Mask: genMask(r, rp)}
 			switch {
@@ -850,7 +940,7 @@ func (rn *runner) random(r *rand.Rand) {
 			n = 40 + r.Intn(25)
 		}
 		base := genCaseIDs(r, n, nil)
-		sc := scenario{RPC: rp.Name, IDs: base, Icpt: icpt, Sizes: []int32{1 + genPageSize(r)%5}, Mask: keyMask(r, rp), Class: "interceptor"}
+		sc := scenario{RPC: rp.Name, IDs: base, Icpt: icpt, Sizes: []int32{1 + genPageSize(r)%5}, Mask: keyMask(r, rp), Payload: genPayload(r, rp), Class: "interceptor"}
 		if r.Intn(2) == 0 {
 			pool := genCaseIDs(r, 1+r.Intn(5), base)
 			for _, id := range base {
